@@ -725,6 +725,22 @@ class Evaluator:
             if order == "big":
                 items.reverse()
             return SymBytes(items)
+        if name == "int.from_bytes" and len(args) >= 1:
+            # int.from_bytes(b, "big"): byte k of b supplies bits 8*(n-1-k) .. of the result
+            order = args[1] if len(args) > 1 else kwargs.get("byteorder", "big")
+            data = args[0]
+            if isinstance(data, bytes):
+                data = SymBytes([SymInt.const(x) for x in data])
+            if not isinstance(data, SymBytes) or order not in ("big", "little") or kwargs.get("signed"):
+                raise Unsupported(f"`{norm(e)}`")
+            items = list(data.items)
+            if order == "big":
+                items.reverse()
+            bits_ = []
+            for it in items:
+                v = as_sym(it)
+                bits_.extend(v.bit(j) for j in range(8))
+            return SymInt(bits_ or [0])
         if name == "struct.pack":
             return pack(args[0], args[1:])
         if name in ("struct.unpack", "struct.unpack_from"):
